@@ -3,6 +3,6 @@ from props import _io
 META = {"level": "bounded",
         "trusted_base": ['google.protobuf runtime (message classes generated from /repo/proto by protoc)', 'oracles/io_oracles.py reference codec / parser (independent of /repo)'],
         "assumptions": [],
-        "explanation": ''}
+        "explanation": 'No contract within reach: _parse_type is a recursive closure over token lists built by re.findall with star-unpacking; the engine has no model of regular expressions or of recursion on list slices. Exhaustive bounded check only.'}
 
 bounded, replay_obligation = _io.make('C15', "every string over {a,b,<,>,','} up to length 6 (quick) / 8 (thorough) plus random perturbed names against an independent recursive-descent parser of the grammar; accepted names print back", 300, 3000)
